@@ -236,6 +236,10 @@ let () =
           specfail id (Printf.sprintf "trusted_parameter_has_a_type_clients_can_implement:%s" (qual pkg recv name))
         else if not (V.func_not_mutator_ok fn) then
           specfail id (Printf.sprintf "safe_type_has_a_pointer_receiver_method:%s" (qual pkg recv name))
+        else if not (V.param_ptr_tracked_ok fn) then
+          specfail id (Printf.sprintf "unreviewed_function_takes_a_pointer_to_a_trusted_type:%s" (qual pkg recv name))
+        else if not (V.promoted_method_ok fn) then
+          specfail id (Printf.sprintf "unreviewed_method_promoted_from_an_embedded_unexported_type:%s" (qual pkg recv name))
         else ok id (if V.yields_tracked fn then "+reviewed_constructor" else "no_trusted_result"));
 
   (* apitype id pkg name | present/absent *)
